@@ -13,6 +13,9 @@ Inductive sop :=
       (* act 0 = none, 1 = put val, 2 = delete; tm 0 = no timer; obs = KeyState handed to the handler BEFORE the event *)
 | SWm (t : N) (fired : list (N * N))                       (* (key, ts) of the TimerExpired events delivered *)
 | SRescale (n : N) (recorded : list (kgrange * ckdoc)) (asg : list (list N)) (layout_ok : bool) (probes : list (list probe))
+| SRedeploy (n : N) (recorded : list (kgrange * ckdoc)) (asg : list (list N)) (layout_ok : bool) (probes : list (list probe))
+      (* the job deploys the job checkpoint of the LAST SRescale again (the checkpoints taken since were not published):
+         state and timers are those of that checkpoint *)
 | SRelease (asked deleted : N)      (* an operator let go of the old tables it shares with its neighbours: how many shared
                                        files it asked about, how many of them were deleted although a neighbour lists them *)
 | SSave (c : sp_case).                                     (* C14: observations of a savepoint taken / restored here *)
@@ -103,7 +106,9 @@ Fixpoint tm_add (t : N * N) (l : list (N * N)) : list (N * N) :=
       else x :: tm_add t l'
   end.
 
-Record rstate := mkR { r_st : list (skey * N); r_tm : list (N * N); r_wm : N; r_n : N; r_class : bool }.
+(* r_sv = the reference state at the last job checkpoint that was deployed (a redeployment of it rolls back to it) *)
+Record rstate := mkR { r_st : list (skey * N); r_tm : list (N * N); r_wm : N; r_n : N; r_class : bool;
+                       r_sv : list (skey * N) * list (N * N) }.
 
 Definition model_rescale (count : N) (n : N) (recorded : list (kgrange * ckdoc)) (probes : list (list probe)) : list N :=
   flat_map (fun i =>
@@ -137,13 +142,13 @@ Definition step (count : N) (rs : rstate * list N) (o : sop) : rstate * list N :
                  | 2 => st_del (key, ns, ek) (r_st r)
                  | _ => r_st r end in
       let tm' := if (tm =? 0) || (tm <=? r_wm r) then r_tm r else tm_add (tm, key) (r_tm r) in
-      (mkR st' tm' (r_wm r) (r_n r) (r_class r), errs ++ e1)
+      (mkR st' tm' (r_wm r) (r_n r) (r_class r) (r_sv r), errs ++ e1)
   | SWm t fired =>
       let due := filter (fun x => fst x <=? t) (r_tm r) in
       let rest := filter (fun x => negb (fst x <=? t)) (r_tm r) in
       let got := fold_right tm_add [] (map (fun kt => (snd kt, fst kt)) fired) in
       let e1 := if list_eqb nn_eqb due got && (length fired =? length got)%nat then [] else [if r_class r then 120 else 101] in
-      (mkR (r_st r) rest (N.max t (r_wm r)) (r_n r) (r_class r), errs ++ e1)
+      (mkR (r_st r) rest (N.max t (r_wm r)) (r_n r) (r_class r) (r_sv r), errs ++ e1)
   | SRescale n recorded asg layout_ok probes =>
       let to := kg_ranges count n in
       let from := map fst recorded in
@@ -153,13 +158,23 @@ Definition step (count : N) (rs : rstate * list N) (o : sop) : rstate * list N :
          overlapping level (the model abstracts flush / compaction away, which is only sound for well-formed levels) *)
       let e2 := if layout_ok && negb here then model_rescale count n recorded probes else [] in
       let cls := r_class r || here in
-      (mkR (r_st r) (r_tm r) 0 n cls, errs ++ e1 ++ e2)
+      (mkR (r_st r) (r_tm r) 0 n cls (r_st r, r_tm r), errs ++ e1 ++ e2)
+  | SRedeploy n recorded asg layout_ok probes =>
+      let to := kg_ranges count n in
+      let from := map fst recorded in
+      let e1 := check_assign (Some count) to from asg 21 in
+      let here := layout_ok && class_at count n recorded in
+      (* inside the class the reads of a composite depend on whether a compaction has already rewritten the
+         overlapping level (the model abstracts flush / compaction away, which is only sound for well-formed levels) *)
+      let e2 := if layout_ok && negb here then model_rescale count n recorded probes else [] in
+      let cls := r_class r || here in
+      (mkR (fst (r_sv r)) (snd (r_sv r)) 0 n cls (r_sv r), errs ++ e1 ++ e2)
   | SRelease asked deleted => (r, errs ++ (if deleted =? 0 then [] else [102]))
   | SSave c => (r, errs ++ check_sp c)
   end.
 
 Definition check_rescale (count n0 : N) (ops : list sop) : list N :=
-  snd (fold_left (step count) ops (mkR [] [] 0 n0 false, [])).
+  snd (fold_left (step count) ops (mkR [] [] 0 n0 false ([], []), [])).
 
 Definition check_case (c : case) : list N :=
   match c with
